@@ -76,7 +76,7 @@ func c10CheckDeposit(w *l1World, st *l1Step, seqBefore uint64, preBal, postBal m
 	}
 	// what moved equals what was requested
 	sender := msg.Sender
-	escrow := ophosttypes.BridgeAddress(msg.BridgeId).String()
+	escrow := escrowAddr(msg.BridgeId).String()
 	preS, _ := parseCoins(preBal[sender])
 	postS, _ := parseCoins(postBal[sender])
 	preE, _ := parseCoins(preBal[escrow])
@@ -125,7 +125,7 @@ func TestC10Rapid(t *testing.T) {
 	rec := evid.For("C10")
 	runRapid(t, 250, 6000, func(rt *rapid.T) {
 		c := rec.Begin()
-		w := newL1World(rt, l1Cfg{weights: c10Weights, maxBridges: 5, withFee: true, badCfgProb: 5, periods: []time.Duration{time.Minute}})
+		w := newL1World(rt, l1Cfg{weights: c10Weights, maxBridges: 5, withFee: true, badCfgProb: 5, manyBridges: true, periods: []time.Duration{time.Minute}})
 		earlyTarget := map[uint64]bool{} // ids that were deposited to before they existed
 		lateCreated := false
 		shape := ""
